@@ -19,7 +19,7 @@ from vf.props.common import harness_error, inconclusive, proved, violation
 ID = "C17"
 LEVEL = "model_checking"
 ITEM_BUDGET_S = {"quick": 400, "thorough": 1500}
-QT = {"quick": 15000, "thorough": 20000}
+QT = {"quick": 15000, "thorough": 8000}
 _TIER = "quick"
 PATHS_SEEN = set()
 
@@ -27,7 +27,7 @@ META = dict(
     rule="one case = (recipe, variable order V, observation in {compute_hessian, compile_hessian}, path); all n^2 entries are one conjunction (split per entry when the solver gives up)",
     bounds={
         "quick": "recipes with <= 4 variables from the depth<=2 family (sample of 220) + every vector/matrix reduction at n=2 (3 for the vectorised sums), VectorPowerSum k in {1,2,3,4,0.5,-1,2.5}, VectorUnarySum all 10 ops; V: permutations (<=3 vars) / rotations, supersets with one unused variable",
-        "thorough": "full family with <= 5 variables, n=3 everywhere, random depth-2 recipes",
+        "thorough": "600 recipes of the depth<=2 family with <= 5 variables (second derivatives of depth-3 compositions were measured at about one CPU-minute per recipe and are left out), the basic vector node kinds also over 3-vectors, 30 VERIF_SEED random depth-2 recipes",
     },
     outside=["rounding (S7)", "non-regular points", "Hessian of maximise-negation inside solve (C09)"],
     assumptions=["S1", "S2", "S3", "S6", "S7"],
@@ -42,8 +42,9 @@ def worker_init(tier, seed):
 
 def family(tier):
     out = []
-    n = 2 if tier == "quick" else 3
-    out += K.vec_nodes(n, full=True)
+    out += K.vec_nodes(2, full=True)
+    if tier == "thorough":
+        out += K.vec_nodes(3, full=False)   # the basic node kinds once more over 3-vectors (6 variables with v and w)
     v3 = K.V3
     for k in (1, 2, 3, 4, 0.5, -1, 2.5):
         out.append(("vsum", ("vpow", v3, k)))
@@ -62,9 +63,11 @@ def family(tier):
         ("bin", "+", ("bin", "*", ("param", "p"), ("bin", "**", K.X, ("const", 2))), ("bin", "*", ("param", "q"), ("bin", "*", K.X, K.Y))),
         ("bin", "/", ("num", 1.0), ("vsum", v3)),
     ]
-    fam = [r for r in K.scalar_family(tier) if len(free_names(r)["vars"]) <= (4 if tier == "quick" else 5)]
+    fam = [r for r in K.scalar_family("quick") if len(free_names(r)["vars"]) <= (4 if tier == "quick" else 5)]
     if tier == "quick":
         fam = random.Random(17).sample(fam, 220)
+    else:
+        fam = random.Random(17).sample(fam, min(len(fam), 600))
     out += fam
     seen, uniq = set(), []
     for r in out:
@@ -78,7 +81,7 @@ def family(tier):
 def items(tier, seed):
     fam = family(tier)
     if tier == "thorough":
-        fam += K.random_recipes(seed, 150, 2)
+        fam += K.random_recipes(seed, 30, 2)
     its = [("twin", 0)] + [("rs", ch) for ch in K.chunks(fam, 2)]
     return its + K.touched_items(its, 3, ("rs",))
 
